@@ -188,7 +188,8 @@ Qed.
 
 Lemma set_statement_preserves st items : P st -> P (fst (set_statement st items)).
 Proof.
-  intros H. unfold Model.Vars.set_statement. destruct (resolve_items schema st items); [apply exec_items_preserves; exact H|exact H].
+  intros H. unfold Model.Vars.set_statement. destruct (resolve_items schema st items) as [items'|e]; [|exact H].
+  pose proof (exec_items_preserves items' st H) as H1. destruct (exec_items st items') as [st' [e|]]; [exact H|exact H1].
 Qed.
 
 Lemma block_preserves st calls body : (forall s, P s -> P (fst (body s))) -> P st -> P (fst (block schema usable_charsets st calls body)).
